@@ -4,7 +4,8 @@ Decided: n_nodes_per_face and close_face_nodes take argmax of the first fill val
 the closing node is written at stride (n_max_face_nodes + 1); consecutive corners are paired by two slices of the closed array offset by exactly one;
 pairs are put in canonical order before np.unique(axis=0); pairs containing the fill value are removed and exactly their inverse entries become the fill value, the remaining
 inverse entries are renumbered by the number of removed pairs before them; shapes of edge_nodes / inverse_indices / face_edge_connectivity agree symbolically; outputs are INT_DTYPE;
-lazy keys agree and no populate function overwrites an existing variable (recorded finding: supplied edge table renumbered)."""
+lazy keys agree and no populate function overwrites an existing variable (recorded finding: supplied edge table renumbered).
+Index- and count-valued variables are stored without a narrowing integer cast."""
 
 import ast
 
